@@ -263,6 +263,8 @@ func genRaw(r *common.RNG) []byte {
 
 // ---------------------------------------------------------------- cases
 
+const modelMaxLen = 3000
+
 func (rn *runner) caseC18(x []byte, src string, expect []string) {
 	rn.seen++
 	res := rn.res
@@ -294,7 +296,19 @@ func (rn *runner) caseC18(x []byte, src string, expect []string) {
 		if bad, impl, want := oracleC18(name, x); bad {
 			y := x
 			if rn.shrunk["o:ReadImports/"+name] < 6 && len(x) > 40 {
-				y = common.ShrinkBytes(x, func(c []byte) bool { b, _, _ := oracleC18(name, c); return b })
+				// large inputs: a bounded number of oracle evaluations (chunk removal first, so the
+				// budget goes where it shrinks most)
+				budget := 1 << 30
+				if len(x) > 5000 {
+					budget = 400
+				}
+				y = common.ShrinkBytes(x, func(c []byte) bool {
+					if budget--; budget < 0 {
+						return false
+					}
+					b, _, _ := oracleC18(name, c)
+					return b
+				})
 				_, impl, want = oracleC18(name, y)
 			}
 			rn.violate("ReadImports/"+name, y, map[string]string{"fn": "ReadImports"}, impl, want,
@@ -307,10 +321,14 @@ func (rn *runner) caseC18(x []byte, src string, expect []string) {
 		}
 	}
 	if rn.seen%2503 == 1 {
-		res.Sample(map[string]any{"input": string(x), "impl": clip(o1.show()), "source": src, "go/parser accepts": okp})
+		res.Sample(map[string]any{"input": clip(string(x)), "impl": clip(o1.show()), "source": src, "go/parser accepts": okp})
 	}
-	hx := common.Hex(x)
-	_ = hx
+	if len(x) > modelMaxLen {
+		// the extracted model keeps bytes as Coq lists (quadratic rev): large inputs go to the
+		// direct oracles only
+		res.Count("model-skipped(large input)")
+		return
+	}
 	rn.add(pending{x: x, fn: "ReadImports(report=true)", extra: map[string]string{"report": "1"}, mk: func(c []byte) (string, string) {
 		return "ri 1 " + common.Hex(c), implRI(c, true).show()
 	}})
@@ -406,7 +424,19 @@ func runC18(rn *runner) {
 	for i := 0; i < nRaw; i++ {
 		rn.caseC18(genRaw(r), "random", nil)
 	}
+	// large inputs: hundreds to thousands of imports, 50k-byte comments / strings / identifiers, long
+	// runs of blank lines and semicolons, long unterminated strings and comments
+	nLarge := 1
+	if f.Tier == "thorough" {
+		nLarge = 8
+	}
+	for round := 0; round < nLarge; round++ {
+		for _, lc := range largeCases(r, round) {
+			res.Count("large:" + lc.name)
+			rn.caseC18(lc.src, "large", lc.paths)
+		}
+	}
 	res.Exhaustive = false
-	res.Rule = fmt.Sprintf("corpus; %d hand-written inputs, each also with a BOM in front; %d grammar-based Go files (optional BOM, trivia = blanks/newlines/semicolons/line and block comments, package clause, 0-3 import declarations single or grouped, specs plain/named/./_, raw, interpreted and escaped path literals, followed by declarations), every one generated as an abstract section of the Coq grammar G, found well-formed (wf_section) and rendered to the same bytes with the same paths by the extracted model, and validated by go/parser (accepted, same import literals); %d byte-level mutations of such files; %d random token/byte soups (NUL, partial BOM, unterminated strings and comments). Non-trivial: go/parser accepts, or the reader reports imports or an error. Oracles: no panic / termination under a 20 s watchdog; output is a prefix of the input (BOM aside); syntax error with report=true => whole input and nil error with report=false (NUL error allowed when the input contains NUL); whenever go/parser accepts the input, same unquoted import paths in order with a nil error, and the returned prefix parses (ImportsOnly) to the same imports.",
-		len(handC18), nGen, nMut, nRaw)
+	res.Rule = fmt.Sprintf("corpus; %d hand-written inputs, each also with a BOM in front; %d grammar-based Go files (optional BOM, trivia = blanks/newlines/semicolons/line and block comments, package clause, 0-3 import declarations single or grouped, specs plain/named/./_, raw, interpreted and escaped path literals, followed by declarations), every one generated as an abstract section of the Coq grammar G, found well-formed (wf_section) and rendered to the same bytes with the same paths by the extracted model, and validated by go/parser (accepted, same import literals); %d byte-level mutations of such files; %d random token/byte soups (NUL, partial BOM, unterminated strings and comments); large inputs (600-3000 single/grouped/aliased imports, 50k-byte comments, path strings and identifiers, 20k blank lines / semicolons before and between imports, 20k-60k byte unterminated strings and comments) on the direct oracles only (the model is asked for inputs up to %d bytes). Non-trivial: go/parser accepts, or the reader reports imports or an error. Oracles: no panic / termination under a 20 s watchdog; output is a prefix of the input (BOM aside); syntax error with report=true => whole input and nil error with report=false (NUL error allowed when the input contains NUL); whenever go/parser accepts the input, same unquoted import paths in order with a nil error, and the returned prefix parses (ImportsOnly) to the same imports.",
+		len(handC18), nGen, nMut, nRaw, modelMaxLen)
 }
